@@ -365,7 +365,8 @@ class Facts:
                     if c.declared in self.fns and not c.t.get('trait'):
                         g[f.path].add(c.declared)
                     tr = c.t.get('trait')
-                    if tr:
+                    # expand to every local impl only when the callee could not be resolved statically
+                    if tr and (c.resolved is None or c.t.get('virt')):
                         m = c.declared.rsplit('::', 1)[-1]
                         for p in trait_impls.get((tr, m), ()):
                             g[f.path].add(p)
@@ -1499,3 +1500,212 @@ def discard_sites(facts):
             if is_discarded(f, d[0]):
                 out.append(c)
     return out
+
+
+# ----------------------------------------------------------------------------- lock-order graph (P4)
+LOCK_CALLS = ('Mutex::lock', 'Mutex::try_lock', 'RwLock::read', 'RwLock::write', 'RwLock::try_read', 'RwLock::try_write')
+
+
+def _guarded_type_of_lock_call(cs):
+    dty = cs.t.get('dty', '')
+    m = re.search(r"(?:MutexGuard|RwLockReadGuard|RwLockWriteGuard)<'_, ", dty)
+    if m:
+        i = m.end()
+        depth = 0
+        out = ''
+        while i < len(dty):
+            ch = dty[i]
+            if ch == '<':
+                depth += 1
+            elif ch == '>':
+                if depth == 0:
+                    break
+                depth -= 1
+            out += ch
+            i += 1
+        return short_ty(out)
+    ga = cs.t.get('ga') or []
+    return short_ty(ga[0]) if ga else '?'
+
+
+def lock_graph(facts):
+    """class-level lock-order graph over the whole crate.
+    returns (edges, acq) where edges: dict (A, B) -> list of (fn path, line, via, is_try) and
+    acq: fn path -> set of (class, is_try) acquired transitively."""
+    if getattr(facts, '_lockgraph', None) is not None:
+        return facts._lockgraph
+    # only statically resolved callees: every reported edge is a real nesting of two acquisitions
+    # (an under-approximation of what may be acquired through generic/dyn calls, never a guess)
+    static_g = defaultdict(set)
+    for f in facts.fn_list:
+        for cl in f.closures:
+            static_g[f.path].add(cl.path)
+        for c in f.calls:
+            if c.resolved and c.resolved in facts.fns and not c.t.get('virt'):
+                static_g[f.path].add(c.resolved)
+            elif c.declared and c.declared in facts.fns and not c.t.get('trait'):
+                static_g[f.path].add(c.declared)
+    direct = defaultdict(set)
+    for f in facts.fn_list:
+        for c in f.calls:
+            if c.matches(LOCK_CALLS) and not c.t.get('local'):
+                cls = _guarded_type_of_lock_call(c)
+                is_try = 'try_' in (c.callee or '')
+                direct[f.path].add((cls, is_try))
+            elif c.matches(LOCK_CALLS) and c.callee and c.callee.startswith('sync::'):
+                # the crate's own spin locks (no_std)
+                cls = _guarded_type_of_lock_call(c)
+                direct[f.path].add((cls, 'try_' in c.callee))
+    g = static_g
+    # drop glue: type -> drop fn
+    drop_fns = {}
+    for f in facts.fn_list:
+        if f.d.get('impl_trait') == 'std::ops::Drop' or f.d.get('impl_trait') == 'core::ops::Drop':
+            st = strip_generics(f.d.get('self_ty') or '')
+            drop_fns[st] = f.path
+    # transitive acquisition (fixed point)
+    acq = {f.path: set(direct.get(f.path, ())) for f in facts.fn_list}
+    # calls through Drop terminators
+    drops = defaultdict(set)
+    for f in facts.fn_list:
+        for i, b in enumerate(f.blocks):
+            t = b['t']
+            if t['k'] == 'drop':
+                pty = strip_generics(t.get('pty', ''))
+                for st, dp in drop_fns.items():
+                    if st and st in t.get('pty', ''):
+                        drops[f.path].add(dp)
+    changed = True
+    rounds = 0
+    while changed and rounds < 50:
+        changed = False
+        rounds += 1
+        for f in facts.fn_list:
+            cur = acq[f.path]
+            n0 = len(cur)
+            for cal in g.get(f.path, ()):
+                cur |= acq.get(cal, set())
+            for dp in drops.get(f.path, ()):
+                cur |= acq.get(dp, set())
+            if len(cur) != n0:
+                changed = True
+    edges = defaultdict(list)
+    for f in facts.fn_list:
+        for c in f.calls:
+            held = held_types_at(f, c.bb)
+            if not held:
+                continue
+            if c.matches(LOCK_CALLS) and (not c.t.get('local') or (c.callee or '').startswith('sync::')):
+                targets = {(_guarded_type_of_lock_call(c), 'try_' in (c.callee or ''))}
+                via = 'direct'
+            else:
+                targets = set()
+                if c.resolved and c.resolved in facts.fns and not c.t.get('virt'):
+                    targets |= acq.get(c.resolved, set())
+                elif c.declared and c.declared in facts.fns and not c.t.get('trait'):
+                    targets |= acq.get(c.declared, set())
+                via = strip_generics(c.callee or '?')
+            for (b, is_try) in targets:
+                for h in held:
+                    edges[(h, b)].append((f.path, c.line, via, is_try))
+        for i, b in enumerate(f.blocks):
+            t = b['t']
+            if t['k'] == 'drop':
+                held = held_types_at(f, i)
+                if not held:
+                    continue
+                # the guard being dropped itself is not "held across" its own drop
+                for st, dp in drop_fns.items():
+                    if st and st in t.get('pty', ''):
+                        for (cls, is_try) in acq.get(dp, set()):
+                            for h in held:
+                                edges[(h, cls)].append((f.path, t.get('l'), 'drop ' + st, is_try))
+    facts._lockgraph = (edges, acq)
+    return facts._lockgraph
+
+
+def find_cycles(nodes_edges):
+    """simple cycle enumeration (Tarjan SCCs; returns SCCs with more than one node or a self loop)."""
+    graph = defaultdict(set)
+    for (a, b) in nodes_edges:
+        graph[a].add(b)
+    index = {}
+    low = {}
+    stack = []
+    on = set()
+    out = []
+    counter = [0]
+
+    def strong(v):
+        index[v] = low[v] = counter[0]
+        counter[0] += 1
+        stack.append(v)
+        on.add(v)
+        for w in graph.get(v, ()):
+            if w not in index:
+                strong(w)
+                low[v] = min(low[v], low[w])
+            elif w in on:
+                low[v] = min(low[v], index[w])
+        if low[v] == index[v]:
+            comp = []
+            while True:
+                w = stack.pop()
+                on.discard(w)
+                comp.append(w)
+                if w == v:
+                    break
+            if len(comp) > 1 or (v in graph.get(v, ())):
+                out.append(sorted(comp))
+    import sys
+    sys.setrecursionlimit(10000)
+    for v in list(graph):
+        if v not in index:
+            strong(v)
+    return out
+
+
+def direct_lock_nestings(facts, depth=2):
+    """exact, bounded lock nestings: (held class, acquired class, kind) -> list of (root fn, line, via)
+    where the acquisition is a lock call in the same function (via 'direct') or in a statically
+    resolved callee chain of at most `depth` calls that contains the lock call in its own body.
+    No drop glue, no generic/dyn expansion: every reported pair is a real syntactic nesting."""
+    key = '_nest%d' % depth
+    if getattr(facts, key, None) is not None:
+        return getattr(facts, key)
+    direct = defaultdict(set)
+    for f in facts.fn_list:
+        for c in f.calls:
+            if c.matches(LOCK_CALLS) and (not c.t.get('local') or (c.callee or '').startswith('sync::')):
+                direct[f.path].add((_guarded_type_of_lock_call(c), 'try' if 'try_' in (c.callee or '') else 'lock'))
+    static = defaultdict(set)
+    for f in facts.fn_list:
+        for c in f.calls:
+            if c.resolved and c.resolved in facts.fns and not c.t.get('virt'):
+                static[f.path].add(c.resolved)
+    def acq(path, d, seen):
+        out = set(direct.get(path, ()))
+        if d > 0:
+            for g in static.get(path, ()):
+                if g not in seen:
+                    out |= acq(g, d - 1, seen | {g})
+        return out
+    pairs = defaultdict(list)
+    for f in facts.fn_list:
+        for c in f.calls:
+            held = held_types_at(f, c.bb)
+            if not held:
+                continue
+            if c.matches(LOCK_CALLS) and (not c.t.get('local') or (c.callee or '').startswith('sync::')):
+                tg = {(_guarded_type_of_lock_call(c), 'try' if 'try_' in (c.callee or '') else 'lock')}
+                via = 'direct'
+            elif c.resolved and c.resolved in facts.fns and not c.t.get('virt'):
+                tg = acq(c.resolved, depth - 1, {c.resolved})
+                via = strip_generics(c.resolved)
+            else:
+                continue
+            for (cls, kind) in tg:
+                for h in held:
+                    pairs[(h, cls, kind)].append((facts.root_of(f).path, c.line, via))
+    setattr(facts, key, pairs)
+    return pairs
